@@ -210,9 +210,9 @@ def main():
     tmp = tempfile.mkdtemp(prefix=f"verif_{prop}_")
     infra = []
     try:
-        jobs = P["jobs"]
+        jobs = list(P["jobs"])
         if "prepare" in P:
-            jobs = P["prepare"](P, tier, tmp, seed, infra)
+            jobs = jobs + P["prepare"](P, tier, tmp, seed, infra)
         tasks = []
         for job in jobs:
             rx = job["thorough"] if tier == "thorough" else job["quick"]
